@@ -142,3 +142,10 @@ def weighted(rng: random.Random, table):
         if x < 0:
             return item
     return table[-1][0]
+
+
+def pristine(fn, *args, timeout: float = 600):
+    """Evaluate fn(*args) in a pristine fork of this process, so that process-global state of the code under test
+    left by one evaluation (caches, registries, default-argument objects) cannot leak into the next one."""
+    from .driver import in_fork
+    return in_fork(fn, *args, timeout=timeout)
